@@ -32,6 +32,8 @@ def cases(tier, seed):
     defs = [space.bind_def(n, k, c, order=i + 1, container="list" if i % 2 else "set", sensors_shape=sens[i])
             for i, (n, k, c) in enumerate(shapes)]
     defs.append(space.bind_def(4, 3, 2, order=2, sensors_shape=(2, 1), tag="-wide"))
+    defs.append(space.assumed(defs[1]))  # symbols declared real=True
+    defs.append(space.family_sizes("quick")[0])  # larger blocks (16-entry Jacobian, 3-reading sensor)
     if tier == "thorough":
         defs += space.family_bind("quick", with_sensors=True)
         from fv.props.c03 import with_sensors
